@@ -21,6 +21,9 @@ type field struct {
 	// for size fields: the extent [CS, CE) of the content they measure (original coordinates)
 	IsSize bool
 	CS, CE int
+	// a function-index field (ref.func / call immediates, start, exports) of a module that has element items
+	// written as `global.get`: gets the tag-bit replacement values that element items always get
+	TagVals bool
 }
 
 type walker struct {
@@ -430,6 +433,16 @@ func walkModule(b []byte) *walker {
 			w.fail("section %d length: at %d want %d", id, w.p, end)
 		}
 	}
+	if w.elemGlobalGet {
+		// wazero stores an element item `global.get g` in the function-index space as g | 1<<30: every field
+		// that names a function then also takes the tagged values (is g | 1<<30 mistaken for a function?)
+		for i := range w.fields {
+			switch w.fields[i].Kind {
+			case "imm.funcidx", "start.funcidx", "export.idx", "namesec.func.idx":
+				w.fields[i].TagVals = true
+			}
+		}
+	}
 	return w
 }
 
@@ -701,7 +714,7 @@ func devBytes(b []byte, f field, v int) []byte {
 		r = []byte{0xff, 0x7f}
 	default:
 		e := extraVals[v-nBaseValues]
-		elemItem := f.Kind == "elem.init.funcidx" || f.Kind == "elem.init.reffunc"
+		elemItem := f.Kind == "elem.init.funcidx" || f.Kind == "elem.init.reffunc" || f.TagVals
 		if e.elemOnly && !elemItem {
 			return nil
 		}
